@@ -47,6 +47,20 @@ CLAIMED = {
              "pure-Python shim. Outside: non-dyadic intervals, |x| > 32, positions inside the "
              "isclose tolerance band, NaN/inf, non-positive sampling intervals.",
         ref="3 C07"),
+    "C11": dict(
+        text="The open decision table of File.__init__ holds for EVERY stored version triple in Z^3 "
+             "(and wrong-length versions), both format tags, valid/invalid/missing id, existing or "
+             "missing path and all three modes: missing+r -> error and nothing created; missing or w "
+             "-> TRUNC create with a fresh valid header and no content; existing+a -> RDWR, accepted "
+             "iff nix tag, version == library, valid id; existing+r -> RDONLY flag, accepted iff nix "
+             "tag, same major, minor not newer, valid id from 1.2.0 on; neither a refused nor an "
+             "accepted open changes the stored tree. Plus: mutating calls on a read-only handle fail "
+             "and change nothing; every introspected read call returns the same in r and a mode.",
+        note="Runs the real File/H5Group code on fakeh5 (in-memory stand-in for the h5py calls, "
+             "validated against real h5py by a differential script each run). That libhdf5 honours "
+             "ACC_RDONLY and keeps bytes identical is trusted - the flag handed over is asserted; "
+             "counterexamples are replayed on a real file incl. a byte-for-byte comparison.",
+        ref="3 C11"),
 }
 
 NOT_APPLICABLE = {
